@@ -23,7 +23,7 @@ from cv.tlc import run_tlc, must_ok
 from cv.trace import validate_trace
 
 LEVEL = "model_checking"
-QUANT = ["modulus_adiabatic", "modulus_isothermal", "tp_modulus_adiabatic", "tp_modulus_isothermal", "tp_bulk_vrh", "tp_vp", "tp_volumes", "compliances"]
+QUANT = ["modulus_adiabatic", "modulus_isothermal", "tp_modulus_adiabatic", "tp_modulus_isothermal", "tp_bulk_vrh", "tp_vp", "tp_volumes", "compliances", "tp_attr_adiabatic", "tp_attr_isothermal"]
 WRITES = [("tp", "cij"), ("tp", "bm_VRH"), ("tv", "p")]
 
 
@@ -110,6 +110,9 @@ def main(ctx, replay=None):
     # the pressure-base tensors in the other order than the reference run reads them
     behaviours.append(({"seed": "1", "cwd": "empty"}, [["Construct", 1, "A"], ["Read", 1, "tp_modulus_isothermal"], ["Read", 1, "tp_modulus_adiabatic"],
                                                       ["Read", 1, "tp_modulus_isothermal"], ["WriteOutput", 1], ["WriteOutput", 1]]))
+    # ... and their attribute-style names (c11t before c11s; the reference reads the adiabatic one first)
+    behaviours.append(({"seed": "2", "cwd": "empty"}, [["Construct", 1, "A"], ["Read", 1, "tp_attr_isothermal"], ["Read", 1, "tp_attr_adiabatic"],
+                                                      ["Read", 1, "tp_attr_isothermal"], ["Read", 1, "tp_modulus_adiabatic"]]))
     behaviours.append(({"seed": "0", "cwd": "shadow_data"}, [["Construct", 1, "A"], ["Write", 1, "tp", "cij"], ["WriteOutput", 1], ["CliRun", "A"]]))
     # the files at a path are replaced between two calculations: the second one is the calculation of the NEW content
     behaviours.append(({"seed": "2", "cwd": "junk"}, [["Construct", 1, "A"], ["Read", 1, "modulus_adiabatic"], ["Rewrite", "A", "C"], ["Construct", 2, "A"],
